@@ -1,2 +1,1113 @@
-(* C07 proofs *)
-From MJ Require Import Common.Base C07.Model C07.Spec.
+(* C07 proofs: the order / equality / hash laws of Value and the filter algebra. *)
+From Coq Require Import Sorting.Permutation.
+From MJ Require Import Common.Base C07.Model C07.Spec C07.Float.
+
+
+(* ------------------------------------------------------------------ *)
+(* generic comparison tables                                           *)
+(* ------------------------------------------------------------------ *)
+Fixpoint lex_cmp {A} (cmp : A -> A -> comparison) (xs ys : list A) : comparison :=
+  match xs, ys with
+  | [], [] => Eq
+  | [], _ :: _ => Lt
+  | _ :: _, [] => Gt
+  | x :: xs', y :: ys' => match cmp x y with Eq => lex_cmp cmp xs' ys' | r => r end
+  end.
+
+Definition tbl {A} (cmp : A -> A -> comparison) (x y z : A) : Prop :=
+  (cmp x y = Eq -> cmp x z = cmp y z) /\
+  (cmp y z = Eq -> cmp x y = cmp x z) /\
+  (cmp x y = Lt -> cmp y z = Lt -> cmp x z = Lt) /\
+  (cmp x y = Gt -> cmp y z = Gt -> cmp x z = Gt).
+
+Lemma tbl_Zcompare_key {A} (k : A -> Z) x y z : tbl (fun a b => k a ?= k b) x y z.
+Proof.
+  unfold tbl. repeat split; intros.
+  - apply Z.compare_eq in H. rewrite H. reflexivity.
+  - apply Z.compare_eq in H. rewrite H. reflexivity.
+  - rewrite Z.compare_lt_iff in *. lia.
+  - rewrite Z.compare_gt_iff in *. lia.
+Qed.
+
+Lemma lex_tbl {A} (cmp : A -> A -> comparison) (xs : list A) :
+  Forall (fun x => forall y z, tbl cmp x y z) xs ->
+  forall ys zs, tbl (lex_cmp cmp) xs ys zs.
+Proof.
+  induction 1 as [|x xs Hx Hxs IH]; intros ys zs.
+  - destruct ys, zs; unfold tbl; cbn; repeat split; intros; try congruence.
+  - destruct ys as [|y ys], zs as [|z zs].
+    1-3: unfold tbl; cbn; repeat split; intros; try congruence; destruct (cmp x y); congruence.
+    specialize (Hx y z). specialize (IH ys zs). unfold tbl in *. cbn.
+    destruct Hx as (H1 & H2 & H3 & H4). destruct IH as (I1 & I2 & I3 & I4).
+    destruct (cmp x y) eqn:Exy; destruct (cmp y z) eqn:Eyz;
+      try (rewrite (H1 eq_refl) in * ); try (rewrite <- (H2 eq_refl) in * );
+      try (rewrite (H3 eq_refl eq_refl) in * ); try (rewrite (H4 eq_refl eq_refl) in * );
+      try rewrite Eyz; try rewrite Exy;
+      repeat split; intros; try congruence; auto.
+Qed.
+
+Lemma lex_anti {A} (cmp : A -> A -> comparison) (xs : list A) :
+  Forall (fun x => forall y, cmp y x = CompOpp (cmp x y)) xs ->
+  forall ys, lex_cmp cmp ys xs = CompOpp (lex_cmp cmp xs ys).
+Proof.
+  induction 1 as [|x xs Hx _ IH]; intros [|y ys]; cbn; auto.
+  rewrite Hx. destruct (cmp x y); cbn; auto.
+Qed.
+
+Lemma lex_refl {A} (cmp : A -> A -> comparison) (xs : list A) :
+  Forall (fun x => cmp x x = Eq) xs -> lex_cmp cmp xs xs = Eq.
+Proof. induction 1; cbn; auto. rewrite H. auto. Qed.
+
+Definition ranked {A} (r : A -> Z) (body : A -> A -> comparison) (a b : A) : comparison :=
+  match r a ?= r b with Eq => body a b | o => o end.
+
+Lemma ranked_tbl {A} (r : A -> Z) body (x y z : A) :
+  (r x = r y -> r y = r z -> tbl body x y z) -> tbl (ranked r body) x y z.
+Proof.
+  intros H. unfold tbl, ranked.
+  destruct (Z.compare_spec (r x) (r y)) as [E1|E1|E1], (Z.compare_spec (r y) (r z)) as [E2|E2|E2],
+    (Z.compare_spec (r x) (r z)) as [E3|E3|E3]; try lia;
+    try (destruct (H E1 E2) as (H1 & H2 & H3 & H4)); repeat split; intros; try congruence; auto.
+Qed.
+
+Lemma ranked_anti {A} (r : A -> Z) body (x y : A) :
+  (r x = r y -> body y x = CompOpp (body x y)) -> ranked r body y x = CompOpp (ranked r body x y).
+Proof.
+  intros H. unfold ranked. rewrite (Z.compare_antisym (r x) (r y)).
+  destruct (Z.compare_spec (r x) (r y)); cbn; auto.
+Qed.
+
+Lemma ranked_refl {A} (r : A -> Z) body (x : A) : body x x = Eq -> ranked r body x x = Eq.
+Proof. intros H. unfold ranked. rewrite Z.compare_refl. auto. Qed.
+
+(* ------------------------------------------------------------------ *)
+(* induction principle for the nested type                             *)
+(* ------------------------------------------------------------------ *)
+Section ValueInd.
+  Variable P : value -> Prop.
+  Hypothesis HUndef : P VUndef.
+  Hypothesis HNone : P VNone.
+  Hypothesis HBool : forall b, P (VBool b).
+  Hypothesis HInt : forall w z, P (VInt w z).
+  Hypothesis HFloat : forall b, P (VFloat b).
+  Hypothesis HStr : forall f s, P (VStr f s).
+  Hypothesis HBytes : forall s, P (VBytes s).
+  Hypothesis HSeq : forall xs, Forall P xs -> P (VSeq xs).
+  Hypothesis HTuple : forall xs, Forall P xs -> P (VTuple xs).
+  Hypothesis HIter : forall sh xs, Forall P xs -> P (VIter sh xs).
+  Hypothesis HMap : forall kvs, Forall (fun kv => P (fst kv) /\ P (snd kv)) kvs -> P (VMap kvs).
+  Hypothesis HPlain : forall s, P (VPlain s).
+
+  Fixpoint value_ind' (v : value) : P v :=
+    let many := fix many (xs : list value) : Forall P xs :=
+      match xs with
+      | [] => Forall_nil _
+      | x :: r => Forall_cons _ (value_ind' x) (many r)
+      end in
+    match v with
+    | VUndef => HUndef
+    | VNone => HNone
+    | VBool b => HBool b
+    | VInt w z => HInt w z
+    | VFloat b => HFloat b
+    | VStr f s => HStr f s
+    | VBytes s => HBytes s
+    | VSeq xs => HSeq xs (many xs)
+    | VTuple xs => HTuple xs (many xs)
+    | VIter sh xs => HIter sh xs (many xs)
+    | VMap kvs => HMap kvs
+        ((fix manyp (xs : list (value * value)) : Forall (fun kv => P (fst kv) /\ P (snd kv)) xs :=
+            match xs with
+            | [] => Forall_nil _
+            | kv :: r => Forall_cons kv (conj (value_ind' (fst kv)) (value_ind' (snd kv))) (manyp r)
+            end) kvs)
+    | VPlain s => HPlain s
+    end.
+End ValueInd.
+
+(* ------------------------------------------------------------------ *)
+(* equations for vcmp                                                  *)
+(* ------------------------------------------------------------------ *)
+Fixpoint flat_pairs (kvs : list (value * value)) : list value :=
+  match kvs with
+  | [] => []
+  | (k, v) :: r => k :: v :: flat_pairs r
+  end.
+
+Definition items_of (v : value) : list value :=
+  match v with
+  | VSeq xs | VTuple xs | VIter _ xs => xs
+  | VMap kvs => flat_pairs kvs
+  | _ => []
+  end.
+
+Definition vbody (a b : value) : comparison :=
+  match a with
+  | VSeq _ | VTuple _ | VIter _ _ =>
+      match bool_cmp (is_tuple a) (is_tuple b) with
+      | Eq => match b with
+              | VSeq _ | VTuple _ | VIter _ _ => lex_cmp vcmp (items_of a) (items_of b)
+              | _ => Eq
+              end
+      | r => r
+      end
+  | VMap _ => match b with VMap _ => lex_cmp vcmp (items_of a) (items_of b) | _ => Eq end
+  | VPlain s => match b with VPlain t => zlist_cmp s t | _ => Eq end
+  | _ => scalar_cmp a b
+  end.
+
+Lemma vcmp_eqn a b : vcmp a b = ranked kind_rank vbody a b.
+Proof.
+  assert (L : forall xs ys,
+    (fix lex (xs ys : list value) {struct xs} : comparison :=
+        match xs, ys with
+        | [], [] => Eq
+        | [], _ :: _ => Lt
+        | _ :: _, [] => Gt
+        | x :: xs', y :: ys' => match vcmp x y with Eq => lex xs' ys' | r => r end
+        end) xs ys = lex_cmp vcmp xs ys).
+  { induction xs; destruct ys; cbn; auto. rewrite IHxs. reflexivity. }
+  assert (LP : forall xs ys,
+    (fix lexp (xs : list (value * value)) (ys : list (value * value)) {struct xs} : comparison :=
+                 match xs, ys with
+                 | [], [] => Eq
+                 | [], _ :: _ => Lt
+                 | _ :: _, [] => Gt
+                 | (k1, v1) :: xs', (k2, v2) :: ys' =>
+                     match vcmp k1 k2 with
+                     | Eq => match vcmp v1 v2 with Eq => lexp xs' ys' | r => r end
+                     | r => r
+                     end
+                 end) xs ys = lex_cmp vcmp (flat_pairs xs) (flat_pairs ys)).
+  { induction xs as [|[k1 v1] xs IH]; destruct ys as [|[k2 v2] ys]; cbn; auto. rewrite IH. reflexivity. }
+  unfold ranked.
+  destruct a; cbn [vcmp]; destruct (kind_rank _ ?= kind_rank b) eqn:E; try reflexivity;
+    destruct b; cbn in E; try discriminate E; cbn [vbody is_tuple bool_cmp items_of]; try reflexivity;
+    rewrite ?L, ?LP; reflexivity.
+Qed.
+
+Lemma tbl_ext {A} (c1 c2 : A -> A -> comparison) x y z :
+  c1 x y = c2 x y -> c1 y z = c2 y z -> c1 x z = c2 x z -> tbl c2 x y z -> tbl c1 x y z.
+Proof. unfold tbl. intros -> -> ->. auto. Qed.
+
+Lemma lex_tbl_q {A} (Q : A -> Prop) (cmp : A -> A -> comparison) (xs : list A) :
+  Forall (fun x => forall y z, Q y -> Q z -> tbl cmp x y z) xs ->
+  forall ys zs, Forall Q ys -> Forall Q zs -> tbl (lex_cmp cmp) xs ys zs.
+Proof.
+  induction 1 as [|x xs Hx Hxs IH]; intros ys zs Qy Qz.
+  - destruct ys, zs; unfold tbl; cbn; repeat split; intros; try congruence.
+  - destruct ys as [|y ys], zs as [|z zs].
+    1-3: unfold tbl; cbn; repeat split; intros; try congruence; destruct (cmp x y); congruence.
+    apply Forall_cons_iff in Qy; destruct Qy as [Qy1 Qy2]. apply Forall_cons_iff in Qz; destruct Qz as [Qz1 Qz2].
+    specialize (Hx y z Qy1 Qz1). specialize (IH ys zs Qy2 Qz2).
+    unfold tbl in *. cbn.
+    destruct Hx as (H1 & H2 & H3 & H4). destruct IH as (I1 & I2 & I3 & I4).
+    destruct (cmp x y) eqn:Exy; destruct (cmp y z) eqn:Eyz;
+      try (rewrite (H1 eq_refl) in * ); try (rewrite <- (H2 eq_refl) in * );
+      try (rewrite (H3 eq_refl eq_refl) in * ); try (rewrite (H4 eq_refl eq_refl) in * );
+      try rewrite Eyz; try rewrite Exy;
+      repeat split; intros; try congruence; auto.
+Qed.
+
+Lemma lex_anti_q {A} (Q : A -> Prop) (cmp : A -> A -> comparison) (xs : list A) :
+  Forall (fun x => forall y, Q y -> cmp y x = CompOpp (cmp x y)) xs ->
+  forall ys, Forall Q ys -> lex_cmp cmp ys xs = CompOpp (lex_cmp cmp xs ys).
+Proof.
+  induction 1 as [|x xs Hx _ IH]; intros [|y ys] Qy; cbn; auto.
+  apply Forall_cons_iff in Qy; destruct Qy as [Qy1 Qy2]. rewrite Hx by assumption. rewrite IH by assumption. destruct (cmp x y); cbn; auto.
+Qed.
+
+Lemma zlist_cmp_lex a b : zlist_cmp a b = lex_cmp Z.compare a b.
+Proof. revert b; induction a; destruct b; cbn; auto. rewrite IHa. reflexivity. Qed.
+
+Lemma tbl_Z x y z : tbl Z.compare x y z.
+Proof. exact (tbl_Zcompare_key (fun x => x) x y z). Qed.
+
+Lemma zlist_tbl a b c : tbl zlist_cmp a b c.
+Proof.
+  apply (tbl_ext _ (lex_cmp Z.compare)); try apply zlist_cmp_lex.
+  apply lex_tbl. apply Forall_forall. intros. apply tbl_Z.
+Qed.
+
+Lemma zlist_anti a b : zlist_cmp b a = CompOpp (zlist_cmp a b).
+Proof.
+  rewrite !zlist_cmp_lex. apply lex_anti. apply Forall_forall. intros x _ y. apply Z.compare_antisym.
+Qed.
+
+Lemma zlist_refl a : zlist_cmp a a = Eq.
+Proof. rewrite zlist_cmp_lex. apply lex_refl. apply Forall_forall. intros. apply Z.compare_refl. Qed.
+
+(* wf, unfolded *)
+Lemma wf_items v : wf v = true -> Forall (fun x => wf x = true) (items_of v).
+Proof.
+  destruct v; cbn [items_of]; try (intros; constructor).
+  1-3: cbn [wf]; induction vs; intros H; constructor; apply andb_prop in H; destruct H; auto.
+  cbn [wf]. intros H. apply andb_prop in H. destruct H as [_ H].
+  induction kvs as [|[k x] r IH]; cbn [flat_pairs]; [constructor|].
+  apply andb_prop in H. destruct H as [H H3]. apply andb_prop in H. destruct H. repeat constructor; auto.
+Qed.
+
+Lemma flat_pairs_Forall (P : value -> Prop) kvs :
+  Forall (fun kv => P (fst kv) /\ P (snd kv)) kvs -> Forall P (flat_pairs kvs).
+Proof. induction 1 as [|[k v] r [H1 H2] _ IH]; cbn; repeat constructor; auto. Qed.
+
+Definition is_scalar (v : value) : bool :=
+  match v with
+  | VSeq _ | VTuple _ | VIter _ _ | VMap _ | VPlain _ => false
+  | _ => true
+  end.
+
+Definition trank (v : value) : Z := if is_tuple v then 1 else 0.
+
+Lemma bool_cmp_Z a b : bool_cmp a b = ((if a then 1 else 0) ?= (if b then 1 else 0)).
+Proof. destruct a, b; reflexivity. Qed.
+
+Definition is_seqlike (v : value) : bool :=
+  match v with VSeq _ | VTuple _ | VIter _ _ => true | _ => false end.
+
+Lemma vbody_seqlike a b : is_seqlike a = true -> is_seqlike b = true ->
+  vbody a b = ranked trank (fun a b => lex_cmp vcmp (items_of a) (items_of b)) a b.
+Proof.
+  unfold ranked, trank. intros Ha Hb.
+  destruct a; try discriminate; destruct b; try discriminate; cbn; reflexivity.
+Qed.
+
+Lemma Forall_mp {A} (P R : A -> Prop) xs : Forall (fun x => P x -> R x) xs -> Forall P xs -> Forall R xs.
+Proof. induction 1; intros HP; constructor; apply Forall_cons_iff in HP; destruct HP; auto. Qed.
+
+Section Structural.
+  (* the laws of the scalar comparisons (proved below, separately for every scalar kind) *)
+  Hypothesis scalar_tbl : forall a b c, is_scalar a = true -> is_scalar b = true -> is_scalar c = true ->
+    kind_rank a = kind_rank b -> kind_rank b = kind_rank c ->
+    wf a = true -> wf b = true -> wf c = true -> tbl scalar_cmp a b c.
+  Hypothesis scalar_anti : forall a b, is_scalar a = true -> is_scalar b = true ->
+    kind_rank a = kind_rank b -> wf a = true -> wf b = true -> scalar_cmp b a = CompOpp (scalar_cmp a b).
+
+  Lemma lex_items_tbl a b c :
+    Forall (fun x => forall b c, wf x = true -> wf b = true -> wf c = true -> tbl vcmp x b c) (items_of a) ->
+    wf a = true -> wf b = true -> wf c = true ->
+    tbl (fun a b => lex_cmp vcmp (items_of a) (items_of b)) a b c.
+  Proof.
+    intros H Wa Wb Wc.
+    assert (T : tbl (lex_cmp vcmp) (items_of a) (items_of b) (items_of c)).
+    { apply (lex_tbl_q (fun x => wf x = true)); try (apply wf_items; assumption).
+      eapply Forall_mp; [|apply wf_items; exact Wa].
+      eapply Forall_impl; [|exact H]. cbn. intros x Hx Wx y z Wy Wz. apply Hx; auto. }
+    exact T.
+  Qed.
+
+  Lemma vcmp_tbl_struct a : forall vy vz, wf a = true -> wf vy = true -> wf vz = true -> tbl vcmp a vy vz.
+  Proof.
+    induction a using value_ind'; intros vy vz Wa Wb Wc;
+      (apply (tbl_ext _ (ranked kind_rank vbody)); try apply vcmp_eqn; apply ranked_tbl; intros R1 R2).
+    1-7: (destruct vy; try discriminate R1; destruct vz; try discriminate R2;
+          apply scalar_tbl; auto).
+    1-3: (destruct vy; try discriminate R1; destruct vz; try discriminate R2;
+      (apply (tbl_ext _ (ranked trank (fun a b => lex_cmp vcmp (items_of a) (items_of b)))); try (apply vbody_seqlike; reflexivity);
+       apply ranked_tbl; intros _ _; apply lex_items_tbl; auto)).
+    - destruct vy; try discriminate R1; destruct vz; try discriminate R2.
+      apply (tbl_ext _ (fun a b => lex_cmp vcmp (items_of a) (items_of b))); try reflexivity.
+      apply lex_items_tbl; auto. cbn [items_of]. apply flat_pairs_Forall.
+      eapply Forall_impl; [|exact H]. cbn. intros kv [H1 H2]. split; auto.
+    - destruct vy; try discriminate R1; destruct vz; try discriminate R2. cbn [vbody]. apply zlist_tbl.
+  Qed.
+
+  Lemma lex_items_anti a y :
+    Forall (fun x => forall y, wf x = true -> wf y = true -> vcmp y x = CompOpp (vcmp x y)) (items_of a) ->
+    wf a = true -> wf y = true ->
+    lex_cmp vcmp (items_of y) (items_of a) = CompOpp (lex_cmp vcmp (items_of a) (items_of y)).
+  Proof.
+    intros H Wa Wy. apply (lex_anti_q (fun x => wf x = true)); try (apply wf_items; assumption).
+    eapply Forall_mp; [|apply wf_items; exact Wa].
+    eapply Forall_impl; [|exact H]. cbn. intros x Hx Wx v Wv. apply Hx; auto.
+  Qed.
+
+  Lemma vcmp_anti_struct a : forall vy, wf a = true -> wf vy = true -> vcmp vy a = CompOpp (vcmp a vy).
+  Proof.
+    induction a using value_ind'; intros vy Wa Wb;
+      (rewrite !vcmp_eqn; apply ranked_anti; intros R1).
+    1-7: (destruct vy; try discriminate R1; apply scalar_anti; auto).
+    1-3: (destruct vy; try discriminate R1;
+      (rewrite !vbody_seqlike by reflexivity; apply ranked_anti; intros _; apply lex_items_anti; auto)).
+    - destruct vy; try discriminate R1. cbn [vbody].
+      apply (lex_items_anti (VMap kvs) (VMap kvs0)); auto. cbn [items_of]. apply flat_pairs_Forall.
+      eapply Forall_impl; [|exact H]. cbn. intros kv [H1 H2]. split; auto.
+    - destruct vy; try discriminate R1. cbn [vbody]. apply zlist_anti.
+  Qed.
+
+  Lemma vcmp_refl_struct a : wf a = true -> vcmp a a = Eq.
+  Proof.
+    intros W. pose proof (vcmp_anti_struct a a W W) as H. destruct (vcmp a a); cbn in H; congruence.
+  Qed.
+End Structural.
+
+(* ------------------------------------------------------------------ *)
+(* scalars; the order theorems                                        *)
+(* ------------------------------------------------------------------ *)
+
+Lemma tbl_key {A} (cmp : A -> A -> comparison) (k : A -> Z) x y z :
+  cmp x y = (k x ?= k y) -> cmp y z = (k y ?= k z) -> cmp x z = (k x ?= k z) -> tbl cmp x y z.
+Proof.
+  intros E1 E2 E3. apply (tbl_ext _ (fun a b => k a ?= k b)); auto. apply tbl_Zcompare_key.
+Qed.
+
+Lemma scalar_tbl : forall a b c, is_scalar a = true -> is_scalar b = true -> is_scalar c = true ->
+    kind_rank a = kind_rank b -> kind_rank b = kind_rank c ->
+    wf a = true -> wf b = true -> wf c = true -> tbl scalar_cmp a b c.
+Proof.
+  intros a b c Sa Sb Sc R1 R2 Wa Wb Wc.
+  destruct a; try discriminate Sa; destruct b; try discriminate Sb; try discriminate R1;
+    destruct c; try discriminate Sc; try discriminate R2.
+  all: try (apply (tbl_key _ nkey); apply num_cmp_key; auto; fail).
+  - unfold tbl; cbn; repeat split; congruence.
+  - unfold tbl; cbn; repeat split; congruence.
+  - destruct b, b0, b1; vm_compute; repeat split; congruence.
+  - apply (tbl_ext _ (fun a b => zlist_cmp (match a with VStr _ s => s | _ => [] end) (match b with VStr _ s => s | _ => [] end)));
+      try reflexivity. apply zlist_tbl.
+  - apply (tbl_ext _ (fun a b => zlist_cmp (match a with VBytes s => s | _ => [] end) (match b with VBytes s => s | _ => [] end)));
+      try reflexivity. apply zlist_tbl.
+Qed.
+
+Lemma scalar_anti : forall a b, is_scalar a = true -> is_scalar b = true ->
+    kind_rank a = kind_rank b -> wf a = true -> wf b = true -> scalar_cmp b a = CompOpp (scalar_cmp a b).
+Proof.
+  intros a b Sa Sb R1 Wa Wb.
+  destruct a; try discriminate Sa; destruct b; try discriminate Sb; try discriminate R1.
+  all: try (rewrite !num_cmp_key by auto; apply Z.compare_antisym; fail).
+  - reflexivity.
+  - reflexivity.
+  - destruct b, b0; reflexivity.
+  - cbn. apply zlist_anti.
+  - cbn. apply zlist_anti.
+Qed.
+
+Theorem vcmp_tbl a b c : wf a = true -> wf b = true -> wf c = true -> tbl vcmp a b c.
+Proof. apply vcmp_tbl_struct. exact scalar_tbl. Qed.
+
+Theorem vcmp_anti a b : wf a = true -> wf b = true -> vcmp b a = CompOpp (vcmp a b).
+Proof. apply vcmp_anti_struct. exact scalar_anti. Qed.
+
+Theorem vcmp_refl a : wf a = true -> vcmp a a = Eq.
+Proof. apply vcmp_refl_struct. exact scalar_anti. Qed.
+
+Theorem vcmp_trans a b c : wf a = true -> wf b = true -> wf c = true ->
+  vcmp a b <> Gt -> vcmp b c <> Gt -> vcmp a c <> Gt.
+Proof.
+  intros Wa Wb Wc H1 H2. destruct (vcmp_tbl a b c Wa Wb Wc) as (T1 & T2 & T3 & T4).
+  destruct (vcmp a b) eqn:E1; [|destruct (vcmp b c) eqn:E2|]; try congruence.
+  - rewrite (T1 eq_refl). exact H2.
+  - rewrite <- (T2 eq_refl). congruence.
+  - rewrite (T3 eq_refl eq_refl). congruence.
+Qed.
+
+Theorem vcmp_total a b : wf a = true -> wf b = true -> vcmp a b <> Gt \/ vcmp b a <> Gt.
+Proof.
+  intros Wa Wb. rewrite (vcmp_anti a b Wa Wb). destruct (vcmp a b); cbn; [left|left|right]; congruence.
+Qed.
+
+(* ------------------------------------------------------------------ *)
+(* equality and hashing                                               *)
+(* ------------------------------------------------------------------ *)
+Ltac Zify.zify_post_hook ::= Z.div_mod_to_equations.
+
+Fixpoint all2 {A} (f : A -> A -> bool) (xs ys : list A) : bool :=
+  match xs, ys with
+  | [], [] => true
+  | x :: xs', y :: ys' => f x y && all2 f xs' ys'
+  | _, _ => false
+  end.
+
+Fixpoint any2 {A} (f : A -> A -> bool) (xs ys : list A) : bool :=
+  match xs, ys with
+  | x :: xs', y :: ys' => f x y || any2 f xs' ys'
+  | _, _ => false
+  end.
+
+Definition map_of (v : value) : list (value * value) := match v with VMap kvs => kvs | _ => [] end.
+
+Definition veq_body (a b : value) : bool :=
+  match a with
+  | VSeq _ | VTuple _ | VIter _ _ =>
+      is_seqlike b && Bool.eqb (is_tuple a) (is_tuple b) && all2 veq (items_of a) (items_of b)
+  | VMap kvs =>
+      match b with
+      | VMap kvs2 =>
+          (length kvs =? length kvs2)%nat &&
+          forallb (fun kv => match map_get (fst kv) kvs2 with Some v2 => veq (snd kv) v2 | None => false end) kvs
+      | _ => false
+      end
+  | VPlain s => match b with VPlain t => zlist_eqb s t | _ => false end
+  | _ => scalar_eq a b
+  end.
+
+Lemma veq_eqn a b : veq a b = veq_body a b.
+Proof.
+  assert (L : forall xs ys,
+    (fix elems (xs ys : list value) {struct xs} : bool :=
+       match xs, ys with
+       | [], [] => true
+       | x :: xs', y :: ys' => veq x y && elems xs' ys'
+       | _, _ => false
+       end) xs ys = all2 veq xs ys).
+  { induction xs; destruct ys; cbn; auto. rewrite IHxs. reflexivity. }
+  assert (LM : forall kvs2 xs,
+    (fix all (xs : list (value * value)) : bool :=
+             match xs with
+             | [] => true
+             | (k, v1) :: r =>
+                 match map_get k kvs2 with
+                 | Some v2 => veq v1 v2
+                 | None => false
+                 end && all r
+             end) xs = forallb (fun kv => match map_get (fst kv) kvs2 with Some v2 => veq (snd kv) v2 | None => false end) xs).
+  { induction xs as [|[k v] r IH]; cbn; auto. rewrite IH. reflexivity. }
+  destruct a; cbn [veq veq_body]; try reflexivity;
+    destruct b; cbn [is_seqlike is_tuple items_of andb Bool.eqb]; rewrite ?L, ?LM; try reflexivity.
+Qed.
+
+Definition cross_body (a b : value) : bool :=
+  (is_bool a && is_number b) || (is_number a && is_bool b) ||
+  match a with
+  | VSeq _ => match b with VIter _ _ => true | VSeq _ => any2 cross_kind (items_of a) (items_of b) | _ => false end
+  | VIter _ _ => match b with VSeq _ => true | VIter _ _ => any2 cross_kind (items_of a) (items_of b) | _ => false end
+  | VTuple _ => match b with VTuple _ => any2 cross_kind (items_of a) (items_of b) | _ => false end
+  | VMap _ => match b with VMap _ => any2 cross_kind (items_of a) (items_of b) | _ => false end
+  | _ => false
+  end.
+
+Lemma cross_kind_eqn a b : cross_kind a b = cross_body a b.
+Proof.
+  assert (L : forall xs ys,
+    (fix any (xs ys : list value) {struct xs} : bool :=
+       match xs, ys with
+       | x :: xs', y :: ys' => cross_kind x y || any xs' ys'
+       | _, _ => false
+       end) xs ys = any2 cross_kind xs ys).
+  { induction xs; destruct ys; cbn; auto. rewrite IHxs. reflexivity. }
+  assert (LP : forall xs ys,
+    (fix anyp (xs ys : list (value * value)) {struct xs} : bool :=
+             match xs, ys with
+             | (k1, v1) :: xs', (k2, v2) :: ys' => cross_kind k1 k2 || cross_kind v1 v2 || anyp xs' ys'
+             | _, _ => false
+             end) xs ys = any2 cross_kind (flat_pairs xs) (flat_pairs ys)).
+  { induction xs as [|[k1 v1] xs IH]; destruct ys as [|[k2 v2] ys]; cbn; auto. rewrite IH. rewrite orb_assoc. reflexivity. }
+  destruct a; cbn [cross_kind cross_body]; try reflexivity;
+    destruct b; cbn [is_bool is_number items_of andb orb]; rewrite ?L, ?LP; try reflexivity.
+Qed.
+
+Fixpoint hpairs (i : Z) (xs : list value) : list Z :=
+  match xs with
+  | [] => []
+  | x :: r => le64 i ++ vhash x ++ hpairs (i + 1) r
+  end.
+Fixpoint hflat (xs : list value) : list Z :=
+  match xs with
+  | [] => []
+  | x :: r => vhash x ++ hflat r
+  end.
+
+Definition vhash_body (v : value) : list Z :=
+  match v with
+  | VNone | VUndef => [0]
+  | VStr _ s => flat_map utf8 s ++ [255]
+  | VBool b => [if b then 1 else 0]
+  | VBytes bs => le64 (lenZ bs) ++ bs
+  | VSeq xs => 0 :: hpairs 0 xs
+  | VTuple xs => 1 :: hpairs 0 xs
+  | VIter _ xs => 0 :: hpairs 0 xs
+  | VMap kvs => 0 :: hflat (flat_pairs kvs)
+  | VPlain _ => [0]
+  | VInt _ _ | VFloat _ => num_hash v
+  end.
+
+Lemma vhash_eqn v : vhash v = vhash_body v.
+Proof.
+  assert (L : forall xs i,
+    (fix pairs (i : Z) (xs : list value) : list Z :=
+       match xs with
+       | [] => []
+       | x :: r => le64 i ++ vhash x ++ pairs (i + 1) r
+       end) i xs = hpairs i xs).
+  { induction xs; intros; cbn; auto; rewrite IHxs; reflexivity. }
+  assert (LM : forall xs,
+    (fix mp (xs : list (value * value)) : list Z :=
+              match xs with
+              | [] => []
+              | (k, x) :: r => vhash k ++ vhash x ++ mp r
+              end) xs = hflat (flat_pairs xs)).
+  { induction xs as [|[k x] r IH]; cbn; auto; rewrite IH; reflexivity. }
+  destruct v; cbn [vhash vhash_body]; rewrite ?L, ?LM; try reflexivity.
+Qed.
+
+Lemma nan_free_items v : nan_free v = true -> Forall (fun x => nan_free x = true) (items_of v).
+Proof.
+  destruct v; cbn [items_of]; try (intros; constructor).
+  1-3: cbn [nan_free]; induction vs; intros H; constructor; apply andb_prop in H; destruct H; auto.
+  cbn [nan_free]. induction kvs as [|[k x] r IH]; cbn [flat_pairs]; intros H; [constructor|].
+  apply andb_prop in H. destruct H as [H H3]. apply andb_prop in H. destruct H. repeat constructor; auto.
+Qed.
+
+Lemma zlist_eqb_eq a b : zlist_eqb a b = true <-> a = b.
+Proof.
+  revert b; induction a; destruct b; cbn; split; intros H; try congruence; try discriminate.
+  - apply andb_prop in H. destruct H as [H1 H2]. apply Z.eqb_eq in H1. apply IHa in H2. congruence.
+  - injection H as -> ->. rewrite Z.eqb_refl. apply IHa. reflexivity.
+Qed.
+
+Lemma zlist_cmp_eq a b : zlist_cmp a b = Eq <-> a = b.
+Proof.
+  revert b; induction a; destruct b; cbn; split; intros H; try congruence; try discriminate.
+  - destruct (Z.compare_spec a z); try discriminate. apply IHa in H. congruence.
+  - injection H as -> ->. rewrite Z.compare_refl. apply IHa. reflexivity.
+Qed.
+
+Lemma zero_not_nan b : f_abs b = 0 -> f_is_nan b = false.
+Proof. unfold f_is_nan. intros ->. reflexivity. Qed.
+
+Lemma zero_key b : f_valid b = true -> f_abs b = 0 -> fkey b = 0.
+Proof. intros V Z. destruct (zero_pattern b V Z) as [-> | ->]; reflexivity. Qed.
+
+Lemma f_eq_key a b : f_valid a = true -> f_valid b = true -> f_eq a b = true -> fkey a = fkey b.
+Proof.
+  intros Va Vb H. unfold f_eq in H. apply andb_prop in H. destruct H as [_ H].
+  apply orb_prop in H. destruct H as [H|H].
+  - apply Z.eqb_eq in H. congruence.
+  - apply andb_prop in H. destruct H as [H1 H2]. rewrite !zero_key; auto; lia.
+Qed.
+
+Lemma key_eq_f_eq a b : f_valid a = true -> f_valid b = true -> f_is_nan a = false ->
+  fkey a = fkey b -> f_eq a b = true.
+Proof.
+  intros Va Vb Na K. unfold f_eq. rewrite Na.
+  destruct (fkey_inj a b Va Vb K) as [-> | [Z1 Z2]].
+  - rewrite Na, Z.eqb_refl. reflexivity.
+  - rewrite (zero_not_nan b Z2), Z1, Z2. cbn. apply orb_true_r.
+Qed.
+
+(* a float whose value is an integer: that integer rounds to itself *)
+Lemma key_int_exact x z : f_valid x = true -> fkey x = z * SC -> rne_int z = z.
+Proof.
+  intros V K. destruct (rne_int_sandwich (fkey x) z (fkey_gridded x V)) as [A B].
+  pose proof SC_pos. rewrite K in *. nia.
+Qed.
+
+Lemma int_abs_bound w z : int_valid w z = true -> Z.abs z <= 2 ^ 128.
+Proof.
+  unfold int_valid. destruct w; cbn [int_lo int_hi]; unfold i64_min, i64_max, u64_max, i128_min, i128_max, u128_max; lia.
+Qed.
+
+(* converse of as_f64_exact: an integer that IS a float passes the lossless check *)
+Lemma as_f64_complete w z : int_valid w z = true -> rne_int z = z ->
+  as_f64 (VInt w z) false = Some (f_of_int z).
+Proof.
+  intros W R. unfold as_f64. cbn [orb].
+  pose proof (f_of_int_facts z (int_abs_bound w z W)) as Fz.
+  assert (HH : Z.abs (int_hi w) <= 2 ^ 128) by (destruct w; cbn; unfold i64_max, u64_max, i128_max, u128_max; lia).
+  pose proof (f_of_int_facts (int_hi w) HH) as FH.
+  rewrite (f_to_int_clamp _ _ _ (iff_nan _ _ Fz)), (iff_trunc _ _ Fz), R.
+  rewrite (f_lt_key _ _ (iff_valid _ _ Fz) (iff_valid _ _ FH) (iff_nan _ _ Fz) (iff_nan _ _ FH)).
+  rewrite (iff_key _ _ Fz), (iff_key _ _ FH), rne_hi, R.
+  unfold int_valid in W. pose proof SC_pos.
+  replace (Z.max (int_lo w) (Z.min (int_hi w) z) =? z) with true by lia.
+  replace (z * SC <? (int_hi w + 1) * SC) with true by nia. reflexivity.
+Qed.
+
+Lemma num_A a b : is_number a = true -> is_number b = true -> wf a = true -> wf b = true ->
+  nan_free a = true -> nkey a = nkey b -> scalar_eq a b = true.
+Proof.
+  intros Na Nb Wa Wb NF K.
+  destruct a; try discriminate Na; destruct b; try discriminate Nb; cbn [wf nkey nan_free] in *.
+  - assert (z = z0) by (pose proof SC_pos; nia). subst z0. unfold int_valid in *.
+    destruct w, w0; cbn [int_lo int_hi] in *;
+      unfold scalar_eq, coerce, to_i128, to_int;
+      unfold i64_min, i64_max, u64_max, i128_min, i128_max, u128_max in *;
+      repeat match goal with
+           | |- context [if ?c then _ else _] => destruct c eqn:?
+           end; try lia.
+  - (* int, float *)
+    pose proof (key_int_exact bits z Wb (eq_sym K)) as R.
+    pose proof (f_of_int_facts z (int_abs_bound w z Wa)) as Fz.
+    unfold scalar_eq, coerce. destruct w; rewrite (as_f64_complete _ z Wa R);
+      apply key_eq_f_eq; try apply Fz; auto; rewrite (iff_key _ _ Fz), R; auto.
+  - pose proof (key_int_exact bits z Wa K) as R.
+    pose proof (f_of_int_facts z (int_abs_bound w z Wb)) as Fz.
+    unfold scalar_eq, coerce. rewrite (as_f64_complete _ z Wb R).
+    apply key_eq_f_eq; try apply Fz; auto; try (rewrite (iff_key _ _ Fz), R; auto).
+    destruct (f_is_nan bits); [discriminate NF|reflexivity].
+  - cbn. apply key_eq_f_eq; auto. destruct (f_is_nan bits); [discriminate NF|reflexivity].
+Qed.
+
+Lemma scalar_A a b : is_scalar a = true -> is_scalar b = true -> kind_rank a = kind_rank b ->
+  wf a = true -> wf b = true -> nan_free a = true -> scalar_cmp a b = Eq -> scalar_eq a b = true.
+Proof.
+  intros Sa Sb R Wa Wb NF C.
+  destruct a; try discriminate Sa; destruct b; try discriminate Sb; try discriminate R.
+  all: try (apply num_A; auto; rewrite num_cmp_key in C by auto; apply Z.compare_eq in C; exact C).
+  - reflexivity.
+  - reflexivity.
+  - destruct b, b0; try reflexivity; discriminate C.
+  - cbn in *. apply zlist_eqb_eq. apply zlist_cmp_eq. exact C.
+  - cbn in *. apply zlist_eqb_eq. apply zlist_cmp_eq. exact C.
+Qed.
+
+(* == on two scalars of one kind implies cmp = Equal: both go through the same coercion *)
+Lemma scalar_B_same a b : is_scalar a = true -> is_scalar b = true -> kind_rank a = kind_rank b ->
+  wf a = true -> wf b = true -> scalar_eq a b = true -> scalar_cmp a b = Eq.
+Proof.
+  intros Sa Sb R Wa Wb E.
+  destruct a; try discriminate Sa; destruct b; try discriminate Sb; try discriminate R.
+  - reflexivity.
+  - reflexivity.
+  - destruct b, b0; try reflexivity; discriminate E.
+  - (* int int *)
+    cbn [wf] in *. unfold int_valid in *.
+    destruct w, w0; cbn [int_lo int_hi] in *; unfold scalar_eq, scalar_cmp in *;
+      try (destruct (coerce _ _) as [[x' y'|x' y'|x' y']|]; try discriminate E;
+           [apply Z.compare_eq_iff; lia | unfold cmp_f64; rewrite E; reflexivity | apply zlist_cmp_eq; apply zlist_eqb_eq; exact E]).
+    apply Z.compare_eq_iff. lia.
+  - try destruct w; unfold scalar_eq, scalar_cmp in *;
+    (destruct (coerce _ _) as [[x' y'|x' y'|x' y']|]; try discriminate E;
+      [apply Z.compare_eq_iff; lia | unfold cmp_f64; rewrite E; reflexivity | apply zlist_cmp_eq; apply zlist_eqb_eq; exact E]).
+  - try destruct w; unfold scalar_eq, scalar_cmp in *;
+    (destruct (coerce _ _) as [[x' y'|x' y'|x' y']|]; try discriminate E;
+      [apply Z.compare_eq_iff; lia | unfold cmp_f64; rewrite E; reflexivity | apply zlist_cmp_eq; apply zlist_eqb_eq; exact E]).
+  - try destruct w; unfold scalar_eq, scalar_cmp in *;
+    (destruct (coerce _ _) as [[x' y'|x' y'|x' y']|]; try discriminate E;
+      [apply Z.compare_eq_iff; lia | unfold cmp_f64; rewrite E; reflexivity | apply zlist_cmp_eq; apply zlist_eqb_eq; exact E]).
+  - cbn in *. apply zlist_cmp_eq. apply zlist_eqb_eq. exact E.
+  - cbn in *. apply zlist_cmp_eq. apply zlist_eqb_eq. exact E.
+Qed.
+
+(* == between scalars of different kinds happens only between a bool and a number *)
+Lemma scalar_B_rank a b : is_scalar a = true -> scalar_eq a b = true ->
+  kind_rank a = kind_rank b \/ (is_bool a && is_number b) || (is_number a && is_bool b) = true.
+Proof.
+  intros Sa E.
+  destruct a; try discriminate Sa; destruct b; cbn [kind_rank is_bool is_number andb orb]; auto;
+    exfalso; unfold scalar_eq, coerce, to_i128, to_int, as_f64 in E;
+    repeat match type of E with
+           | context [match ?w with W_I64 => _ | _ => _ end] => destruct w
+           | context [if ?c then _ else _] => destruct c
+           end; discriminate E.
+Qed.
+
+Lemma scalar_eq_scalar a b : is_scalar a = true -> scalar_eq a b = true -> is_scalar b = true.
+Proof.
+  intros Sa E. destruct b; try reflexivity; exfalso;
+  destruct a; try discriminate Sa; unfold scalar_eq, coerce, to_i128, to_int, as_f64 in E;
+    repeat match type of E with
+           | context [match ?w with W_I64 => _ | _ => _ end] => destruct w
+           | context [if ?c then _ else _] => destruct c
+           end; discriminate E.
+Qed.
+
+(* ------------------------------------------------------------------ *)
+(* maps: the BTreeMap invariant                                        *)
+(* ------------------------------------------------------------------ *)
+Definition wfkeys (kvs : list (value * value)) : Prop := Forall (fun kv => wf (fst kv) = true) kvs.
+
+Lemma keys_ascending_tail kv r : keys_ascending (kv :: r) = true -> keys_ascending r = true.
+Proof. destruct kv as [k v]. cbn [keys_ascending]. intros H. apply andb_prop in H. apply H. Qed.
+
+Lemma asc_head k v r : keys_ascending ((k, v) :: r) = true -> wf k = true -> wfkeys r ->
+  Forall (fun kv => vcmp k (fst kv) = Lt) r.
+Proof.
+  revert k v. induction r as [|[k2 v2] r IH]; intros k v A Wk Wr; [constructor|].
+  pose proof (keys_ascending_tail _ _ A) as A2.
+  cbn [keys_ascending] in A. apply andb_prop in A. destruct A as [A _].
+  apply Forall_cons_iff in Wr. destruct Wr as [Wk2 Wr]. cbn [fst] in Wk2.
+  assert (L : vcmp k k2 = Lt) by (destruct (vcmp k k2); try discriminate A; reflexivity).
+  constructor; [exact L|].
+  specialize (IH k2 v2 A2 Wk2 Wr).
+  eapply Forall_impl; [|apply (Forall_and IH Wr)]. cbn. intros [k3 v3] [L2 W3]. cbn [fst] in *.
+  destruct (vcmp_tbl k k2 k3 Wk Wk2 W3) as (_ & _ & T3 & _). auto.
+Qed.
+
+Lemma map_get_pos pre : forall k k2 v2 post,
+  wfkeys (pre ++ (k2, v2) :: post) -> keys_ascending (pre ++ (k2, v2) :: post) = true ->
+  wf k = true -> vcmp k k2 = Eq -> map_get k (pre ++ (k2, v2) :: post) = Some v2.
+Proof.
+  induction pre as [|[kp vp] pre IH]; intros k k2 v2 post W A Wk E; cbn [app map_get].
+  - rewrite E. reflexivity.
+  - apply Forall_cons_iff in W. destruct W as [Wp W]. cbn [fst] in Wp.
+    pose proof (asc_head kp vp _ A Wp W) as H.
+    apply Forall_app in H. destruct H as [_ H]. apply Forall_cons_iff in H. destruct H as [L _]. cbn [fst] in L.
+    assert (Wk2 : wf k2 = true).
+    { apply Forall_app in W. destruct W as [_ W]. apply Forall_cons_iff in W. apply W. }
+    destruct (vcmp_tbl k k2 kp Wk Wk2 Wp) as (T1 & _). rewrite (T1 E).
+    rewrite (vcmp_anti kp k2 Wp Wk2), L. cbn.
+    apply IH; auto. eapply keys_ascending_tail; eauto.
+Qed.
+
+Lemma wf_map kvs : wf (VMap kvs) = true -> keys_ascending kvs = true /\ wfkeys kvs.
+Proof.
+  cbn [wf]. intros H. apply andb_prop in H. destruct H as [A H]. split; [exact A|].
+  induction kvs as [|[k x] r IH]; [constructor|].
+  apply andb_prop in H. destruct H as [H H3]. apply andb_prop in H. destruct H.
+  constructor; auto. apply IH; auto.
+  destruct r as [|[k2 x2] r]; [reflexivity|]. cbn [keys_ascending] in A. apply andb_prop in A. apply A.
+Qed.
+
+(* ------------------------------------------------------------------ *)
+(* (A) cmp = Equal implies ==                                          *)
+(* ------------------------------------------------------------------ *)
+Lemma lex_Eq_all2 {A} (P Q : A -> Prop) (cmp : A -> A -> comparison) (f : A -> A -> bool) xs :
+  Forall (fun x => P x -> forall y, Q y -> cmp x y = Eq -> f x y = true) xs ->
+  forall ys, Forall P xs -> Forall Q ys -> lex_cmp cmp xs ys = Eq -> all2 f xs ys = true.
+Proof.
+  induction 1 as [|x xs Hx _ IH]; intros [|y ys] HP HQ E; cbn in *; try discriminate; auto.
+  apply Forall_cons_iff in HP. destruct HP as [Px HP]. apply Forall_cons_iff in HQ. destruct HQ as [Qy HQ].
+  destruct (cmp x y) eqn:C; try discriminate. rewrite (Hx Px y Qy C). cbn. apply IH; auto.
+Qed.
+
+Lemma lex_Eq_length {A} (cmp : A -> A -> comparison) xs : forall ys, lex_cmp cmp xs ys = Eq -> length xs = length ys.
+Proof.
+  induction xs; intros [|y ys] E; cbn in *; try discriminate; auto.
+  destruct (cmp a y); try discriminate. f_equal. auto.
+Qed.
+
+Lemma flat_pairs_length kvs : length (flat_pairs kvs) = (2 * length kvs)%nat.
+Proof. induction kvs as [|[k v] r IH]; cbn; lia. Qed.
+
+Definition WN (x : value) : Prop := wf x = true /\ nan_free x = true.
+
+Lemma map_A kvs : forall pre2 suf2,
+  Forall (fun x => WN x -> forall y, wf y = true -> vcmp x y = Eq -> veq x y = true) (flat_pairs kvs) ->
+  Forall WN (flat_pairs kvs) -> Forall (fun y => wf y = true) (flat_pairs suf2) ->
+  wfkeys (pre2 ++ suf2) -> keys_ascending (pre2 ++ suf2) = true ->
+  lex_cmp vcmp (flat_pairs kvs) (flat_pairs suf2) = Eq ->
+  forallb (fun kv => match map_get (fst kv) (pre2 ++ suf2) with Some v2 => veq (snd kv) v2 | None => false end) kvs = true.
+Proof.
+  induction kvs as [|[k v] r IH]; intros pre2 suf2 H HP HQ W A E; [reflexivity|].
+  destruct suf2 as [|[k2 v2] r2]; [discriminate E|].
+  cbn [flat_pairs] in *.
+  apply Forall_cons_iff in H. destruct H as [Hk H]. apply Forall_cons_iff in H. destruct H as [Hv H].
+  apply Forall_cons_iff in HP. destruct HP as [Pk HP]. apply Forall_cons_iff in HP. destruct HP as [Pv HP].
+  apply Forall_cons_iff in HQ. destruct HQ as [Qk HQ]. apply Forall_cons_iff in HQ. destruct HQ as [Qv HQ].
+  cbn [lex_cmp] in E. destruct (vcmp k k2) eqn:Ck; try discriminate E. destruct (vcmp v v2) eqn:Cv; try discriminate E.
+  cbn [forallb fst snd]. rewrite (map_get_pos pre2 k k2 v2 r2 W A (proj1 Pk) Ck).
+  rewrite (Hv Pv v2 Qv Cv). cbn [andb].
+  replace (pre2 ++ (k2, v2) :: r2) with ((pre2 ++ [(k2, v2)]) ++ r2) in * by (rewrite <- app_assoc; reflexivity).
+  apply IH; auto.
+Qed.
+
+Theorem cmp_eq_veq a : forall vb, wf a = true -> wf vb = true -> nan_free a = true ->
+  vcmp a vb = Eq -> veq a vb = true.
+Proof.
+  induction a using value_ind'; intros vb Wa Wb NF C; rewrite vcmp_eqn in C; unfold ranked in C;
+    (destruct (kind_rank _ ?= kind_rank vb) eqn:R; try discriminate C); apply Z.compare_eq in R; rewrite veq_eqn.
+  1-7: (destruct vb; try discriminate R; cbn [vbody veq_body] in *; apply scalar_A; auto).
+  1-3: (destruct vb; try discriminate R; cbn [vbody veq_body is_tuple bool_cmp is_seqlike andb Bool.eqb] in *; try discriminate C;
+        apply (lex_Eq_all2 WN (fun y => wf y = true) vcmp veq) with (4 := C);
+        [ eapply Forall_impl; [|exact H]; cbn; intros x Hx [W1 W2] y Wy; apply Hx; auto
+        | apply (Forall_and (wf_items _ Wa) (nan_free_items _ NF))
+        | apply (wf_items _ Wb) ]).
+  - destruct vb; try discriminate R. cbn [vbody veq_body items_of] in *.
+    pose proof (lex_Eq_length _ _ _ C) as Len. rewrite !flat_pairs_length in Len.
+    replace (length kvs =? length kvs0)%nat with true by (symmetry; apply Nat.eqb_eq; lia). cbn [andb].
+    destruct (wf_map _ Wb) as [Asc Wk].
+    apply (map_A kvs [] kvs0); auto.
+    + apply flat_pairs_Forall. eapply Forall_impl; [|exact H]. cbn. intros [k v] [H1 H2]. cbn [fst snd] in *.
+      split; intros [W1 W2] y Wy; [apply H1|apply H2]; auto.
+    + apply (Forall_and (wf_items _ Wa) (nan_free_items _ NF)).
+    + apply (wf_items _ Wb).
+  - destruct vb; try discriminate R. cbn [vbody veq_body] in *. apply zlist_eqb_eq. apply zlist_cmp_eq. exact C.
+Qed.
+
+Definition kmem (k : value) (l : list (value * value)) : bool :=
+  existsb (fun kv => match vcmp k (fst kv) with Eq => true | _ => false end) l.
+
+Lemma map_get_kmem k l : map_get k l <> None -> kmem k l = true.
+Proof.
+  induction l as [|[k2 v2] r IH]; cbn; [congruence|]. destruct (vcmp k k2); cbn; auto.
+Qed.
+
+Lemma kmem_above k l : Forall (fun kv => vcmp k (fst kv) = Lt) l -> kmem k l = false.
+Proof.
+  induction 1 as [|[k2 v2] r Hd _ IH]; cbn; auto. cbn in Hd. rewrite Hd. cbn. exact IH.
+Qed.
+
+(* keys below k2 are not found among keys above k2 *)
+Lemma kmem_lt_head k k2 v2 r2 : wf k = true -> wf k2 = true -> wfkeys r2 ->
+  keys_ascending ((k2, v2) :: r2) = true -> vcmp k k2 = Lt -> kmem k ((k2, v2) :: r2) = false.
+Proof.
+  intros Wk Wk2 Wr A L. cbn. rewrite L. cbn.
+  apply kmem_above.
+  pose proof (asc_head k2 v2 r2 A Wk2 Wr) as H.
+  eapply Forall_impl; [|apply (Forall_and H Wr)]. cbn. intros [k3 v3] [L3 W3]. cbn [fst] in *.
+  destruct (vcmp_tbl k k2 k3 Wk Wk2 W3) as (_ & _ & T3 & _). auto.
+Qed.
+
+(* if the head keys are Equal, the later keys of a are found among the later keys of b *)
+Lemma kmem_tail k1 v1 r k2 v2 r2 :
+  wf k1 = true -> wf k2 = true -> wfkeys r -> keys_ascending ((k1, v1) :: r) = true ->
+  vcmp k1 k2 <> Lt ->
+  Forall (fun kv => kmem (fst kv) ((k2, v2) :: r2) = true) r ->
+  Forall (fun kv => kmem (fst kv) r2 = true) r.
+Proof.
+  intros W1 W2 Wr A NL H.
+  pose proof (asc_head k1 v1 r A W1 Wr) as L.
+  eapply Forall_impl; [|apply (Forall_and H (Forall_and L Wr))]. cbn. intros [k v] (M & Lk & Wk). cbn [fst] in *.
+  destruct (vcmp k k2) eqn:C; auto. exfalso.
+  (* k = k2 and k1 < k, so k1 < k2 *)
+  destruct (vcmp_tbl k1 k k2 W1 Wk W2) as (_ & T2 & _). rewrite <- (T2 C) in NL. congruence.
+Qed.
+
+Lemma emb_len b : forall a, wfkeys a -> wfkeys b -> keys_ascending a = true -> keys_ascending b = true ->
+  Forall (fun kv => kmem (fst kv) b = true) a -> (length a <= length b)%nat.
+Proof.
+  induction b as [|[k2 v2] r2 IH]; intros a Wa Wb Aa Ab M.
+  - destruct a; [cbn; lia|]. apply Forall_cons_iff in M. destruct M as [M _]. discriminate M.
+  - destruct a as [|[k1 v1] r]; [cbn; lia|].
+    apply Forall_cons_iff in Wa. destruct Wa as [W1 Wr]. apply Forall_cons_iff in Wb. destruct Wb as [W2 Wr2]. cbn [fst] in *.
+    pose proof (keys_ascending_tail _ _ Ab) as Ab2. pose proof (keys_ascending_tail _ _ Aa) as Aa2.
+    apply Forall_cons_iff in M. destruct M as [M1 M]. cbn [fst] in M1.
+    destruct (vcmp k1 k2) eqn:C.
+    + cbn [length]. apply le_n_S. apply IH; auto.
+      apply (kmem_tail k1 v1 r k2 v2 r2); auto; congruence.
+    + rewrite (kmem_lt_head k1 k2 v2 r2 W1 W2 Wr2 Ab C) in M1. discriminate M1.
+    + cbn [length]. apply le_S. apply (IH ((k1, v1) :: r)); auto.
+      * constructor; auto.
+      * constructor.
+        -- cbn [fst]. cbn in M1. rewrite C in M1. exact M1.
+        -- apply (kmem_tail k1 v1 r k2 v2 r2); auto; congruence.
+Qed.
+
+Lemma map_positional a : forall pre2 suf2,
+  wfkeys a -> wfkeys (pre2 ++ suf2) -> keys_ascending a = true -> keys_ascending (pre2 ++ suf2) = true ->
+  keys_ascending suf2 = true ->
+  length a = length suf2 ->
+  Forall (fun kv => kmem (fst kv) suf2 = true) a ->
+  forallb (fun kv => match map_get (fst kv) (pre2 ++ suf2) with Some v2 => veq (snd kv) v2 | None => false end) a = true ->
+  Forall2 (fun kv kv2 => vcmp (fst kv) (fst kv2) = Eq /\ veq (snd kv) (snd kv2) = true) a suf2.
+Proof.
+  induction a as [|[k1 v1] r IH]; intros pre2 suf2 Wa Wb Aa Ab As Len M F.
+  - destruct suf2; [constructor|discriminate Len].
+  - destruct suf2 as [|[k2 v2] r2]; [discriminate Len|].
+    apply Forall_cons_iff in Wa. destruct Wa as [W1 Wr]. cbn [fst] in W1.
+    assert (Wb' := Wb). apply Forall_app in Wb'. destruct Wb' as [_ Wb']. apply Forall_cons_iff in Wb'. destruct Wb' as [W2 Wr2]. cbn [fst] in W2.
+    pose proof (keys_ascending_tail _ _ As) as As2. pose proof (keys_ascending_tail _ _ Aa) as Aa2.
+    apply Forall_cons_iff in M. destruct M as [M1 M]. cbn [fst] in M1.
+    cbn [forallb fst snd] in F. apply andb_prop in F. destruct F as [F1 F].
+    destruct (vcmp k1 k2) eqn:C.
+    + rewrite (map_get_pos pre2 k1 k2 v2 r2 Wb Ab W1 C) in F1.
+      constructor; [cbn [fst snd]; auto|].
+      replace (pre2 ++ (k2, v2) :: r2) with ((pre2 ++ [(k2, v2)]) ++ r2) in * by (rewrite <- app_assoc; reflexivity).
+      apply (IH (pre2 ++ [(k2, v2)]) r2); auto.
+      apply (kmem_tail k1 v1 r k2 v2 r2); auto; congruence.
+    + rewrite (kmem_lt_head k1 k2 v2 r2 W1 W2 Wr2 As C) in M1. discriminate M1.
+    + exfalso.
+      assert (L : (length ((k1, v1) :: r) <= length r2)%nat).
+      { apply emb_len; auto.
+        - constructor; auto.
+        - constructor.
+          + cbn [fst]. cbn in M1. rewrite C in M1. exact M1.
+          + apply (kmem_tail k1 v1 r k2 v2 r2); auto; congruence. }
+      cbn [length] in *. lia.
+Qed.
+
+Lemma forallb_lookup_kmem kvs kvs2 :
+  forallb (fun kv => match map_get (fst kv) kvs2 with Some v2 => veq (snd kv) v2 | None => false end) kvs = true ->
+  Forall (fun kv => kmem (fst kv) kvs2 = true) kvs.
+Proof.
+  induction kvs as [|[k v] r IH]; cbn; intros H; constructor; apply andb_prop in H; destruct H as [H1 H2]; auto.
+  cbn [fst]. apply map_get_kmem. destruct (map_get k kvs2); congruence.
+Qed.
+
+(* == on two maps: the entries correspond position by position *)
+Lemma map_veq_positional kvs kvs2 : wf (VMap kvs) = true -> wf (VMap kvs2) = true ->
+  veq_body (VMap kvs) (VMap kvs2) = true ->
+  Forall2 (fun kv kv2 => vcmp (fst kv) (fst kv2) = Eq /\ veq (snd kv) (snd kv2) = true) kvs kvs2.
+Proof.
+  intros Wa Wb E. cbn [veq_body] in E. apply andb_prop in E. destruct E as [Len F]. apply Nat.eqb_eq in Len.
+  destruct (wf_map _ Wa) as [Aa Ka]. destruct (wf_map _ Wb) as [Ab Kb].
+  apply (map_positional kvs [] kvs2); auto. apply forallb_lookup_kmem. exact F.
+Qed.
+
+Lemma all2_lex_Eq {A} (P Q : A -> Prop) (cmp : A -> A -> comparison) (f g : A -> A -> bool) xs :
+  Forall (fun x => P x -> forall y, Q y -> f x y = true -> g x y = false -> cmp x y = Eq) xs ->
+  forall ys, Forall P xs -> Forall Q ys -> all2 f xs ys = true -> any2 g xs ys = false -> lex_cmp cmp xs ys = Eq.
+Proof.
+  induction 1 as [|x xs Hx _ IH]; intros [|y ys] HP HQ E G; cbn in *; try discriminate; auto.
+  apply Forall_cons_iff in HP. destruct HP as [Px HP]. apply Forall_cons_iff in HQ. destruct HQ as [Qy HQ].
+  apply andb_prop in E. destruct E as [E1 E2]. apply orb_false_elim in G. destruct G as [G1 G2].
+  rewrite (Hx Px y Qy E1 G1). apply IH; auto.
+Qed.
+
+Lemma positional_lex kvs kvs2 :
+  Forall2 (fun kv kv2 => vcmp (fst kv) (fst kv2) = Eq /\ veq (snd kv) (snd kv2) = true) kvs kvs2 ->
+  Forall (fun kv => forall y, wf (snd kv) = true -> wf y = true -> veq (snd kv) y = true -> cross_kind (snd kv) y = false -> vcmp (snd kv) y = Eq) kvs ->
+  Forall (fun x => wf x = true) (flat_pairs kvs) -> Forall (fun x => wf x = true) (flat_pairs kvs2) ->
+  any2 cross_kind (flat_pairs kvs) (flat_pairs kvs2) = false ->
+  lex_cmp vcmp (flat_pairs kvs) (flat_pairs kvs2) = Eq.
+Proof.
+  induction 1 as [|[k v] [k2 v2] r r2 [Hk Hv] _ IH]; intros H W1 W2 G; [reflexivity|].
+  cbn [flat_pairs fst snd] in *.
+  apply Forall_cons_iff in H. destruct H as [H1 H]. cbn [snd] in H1.
+  apply Forall_cons_iff in W1. destruct W1 as [Wk W1]. apply Forall_cons_iff in W1. destruct W1 as [Wv W1].
+  apply Forall_cons_iff in W2. destruct W2 as [Wk2 W2]. apply Forall_cons_iff in W2. destruct W2 as [Wv2 W2].
+  cbn [any2] in G. apply orb_false_elim in G. destruct G as [G1 G]. apply orb_false_elim in G. destruct G as [G2 G].
+  cbn [lex_cmp]. rewrite Hk, (H1 v2 Wv Wv2 Hv G2). apply IH; auto.
+Qed.
+
+Theorem veq_cmp_eq a : forall vb, wf a = true -> wf vb = true ->
+  veq a vb = true -> cross_kind a vb = false -> vcmp a vb = Eq.
+Proof.
+  induction a using value_ind'; intros vb Wa Wb E G; rewrite veq_eqn in E; rewrite cross_kind_eqn in G; rewrite vcmp_eqn; unfold ranked.
+  1-7: (cbn [veq_body] in E;
+        match type of E with scalar_eq ?x _ = true =>
+          pose proof (scalar_eq_scalar x vb eq_refl E) as Sb; destruct (scalar_B_rank x vb eq_refl E) as [R|X] end;
+        [ rewrite R, Z.compare_refl; destruct vb; try discriminate Sb; try discriminate R; cbn [vbody]; apply scalar_B_same; auto
+        | unfold cross_body in G; rewrite X in G; discriminate G ]).
+  1-3: (cbn [veq_body] in E; apply andb_prop in E; destruct E as [E E3]; apply andb_prop in E; destruct E as [E1 E2];
+        destruct vb; try discriminate E1; try discriminate E2; cbn [cross_body is_bool is_number andb orb] in G; try discriminate G;
+        cbn [kind_rank Z.compare Pos.compare Pos.compare_cont vbody is_tuple bool_cmp];
+        apply (all2_lex_Eq (fun x => wf x = true) (fun y => wf y = true) vcmp veq cross_kind) with (4 := E3) (5 := G);
+        [ eapply Forall_impl; [|exact H]; cbn; intros x Hx W1 y Wy; apply Hx; auto
+        | apply (wf_items _ Wa) | apply (wf_items _ Wb) ]).
+  - destruct vb; try discriminate E. cbn [cross_body is_bool is_number andb orb] in G.
+    cbn [kind_rank Z.compare Pos.compare Pos.compare_cont vbody].
+    apply positional_lex; auto.
+    + apply map_veq_positional; auto.
+    + eapply Forall_impl; [|exact H]. cbn. intros [k v] [H1 H2] y W1 W2. cbn [snd] in *. apply H2; auto.
+    + apply (wf_items _ Wa).
+    + apply (wf_items _ Wb).
+  - destruct vb; try discriminate E. cbn [veq_body] in E. cbn. apply zlist_cmp_eq. apply zlist_eqb_eq. exact E.
+Qed.
+
+Lemma rne_i64_max : rne_int i64_max = 2 ^ 63. Proof. vm_compute. reflexivity. Qed.
+
+Lemma f_eq_false_key a b : f_valid a = true -> f_valid b = true -> fkey a <> fkey b -> f_eq a b = false.
+Proof.
+  intros Va Vb N. destruct (f_eq a b) eqn:E; [|reflexivity]. exfalso. apply N. apply f_eq_key; auto.
+Qed.
+
+(* hashing a float that is an integer: same stream as the integer *)
+Lemma float_int_hash x w z : f_valid x = true -> int_valid w z = true -> f_is_nan x = false ->
+  fkey x = z * SC -> num_hash (VFloat x) = num_hash (VInt w z).
+Proof.
+  intros V W Nn K.
+  pose proof (key_int_exact x z V K) as R.
+  pose proof (int_abs_bound w z W) as Hz.
+  destruct (key_eq_facts x z V Hz ltac:(rewrite R; exact K)) as (T & _ & Fin). rewrite R in T.
+  pose proof (f_of_int_facts z Hz) as Fz.
+  assert (HM : Z.abs i64_max <= 2 ^ 128) by (unfold i64_max; lia).
+  pose proof (f_of_int_facts i64_max HM) as FM.
+  assert (Hm : Z.abs i64_min <= 2 ^ 128) by (unfold i64_min; lia).
+  pose proof (f_of_int_facts i64_min Hm) as Fm.
+  pose proof SC_pos as SP.
+  unfold num_hash.
+  assert (T64 : to_i64 (VFloat x) = to_i64 (VInt w z)).
+  { unfold to_i64, to_int, f_fits_i64. rewrite (f_to_int_clamp _ _ x Nn), T.
+    rewrite (f_lt_key x _ V (iff_valid _ _ FM) Nn (iff_nan _ _ FM)), (iff_key _ _ FM), rne_i64_max, K.
+    destruct ((i64_min <=? z) && (z <=? i64_max)) eqn:In.
+    - replace (Z.max i64_min (Z.min i64_max z)) with z by lia.
+      rewrite (key_eq_f_eq (f_of_int z) x (iff_valid _ _ Fz) V (iff_nan _ _ Fz)) by (rewrite (iff_key _ _ Fz), R; auto).
+      replace (z * SC <? 2 ^ 63 * SC) with true by (unfold i64_max in *; nia). cbn [andb]. rewrite In. reflexivity.
+    - destruct (Z_lt_le_dec i64_max z) as [Big|Small].
+      + replace (Z.max i64_min (Z.min i64_max z)) with i64_max by (unfold i64_min, i64_max in *; lia).
+        destruct (Z.eq_dec z (2 ^ 63)) as [->|NE].
+        * rewrite Z.ltb_irrefl. rewrite andb_false_r. reflexivity.
+        * rewrite (f_eq_false_key _ x (iff_valid _ _ FM) V); [reflexivity|].
+          rewrite (iff_key _ _ FM), rne_i64_max, K. nia.
+      + replace (Z.max i64_min (Z.min i64_max z)) with i64_min by (unfold i64_min, i64_max in *; lia).
+        rewrite (f_eq_false_key _ x (iff_valid _ _ Fm) V); [reflexivity|].
+        rewrite (iff_key _ _ Fm), rne_i64_min, K. unfold i64_min, i64_max in *. nia. }
+  rewrite T64. destruct (to_i64 (VInt w z)) eqn:E; [reflexivity|].
+  unfold as_f64. cbn [orb].
+  destruct (fkey_inj x (f_of_int z) V (iff_valid _ _ Fz)) as [-> | [Z1 Z2]]; [rewrite (iff_key _ _ Fz), R; auto|reflexivity|].
+  exfalso. rewrite (zero_key x V Z1) in K. assert (Hz0 : z = 0) by nia. rewrite Hz0 in E.
+  vm_compute in E. discriminate E.
+Qed.
+
+Lemma scalar_C a b : is_scalar a = true -> is_scalar b = true -> kind_rank a = kind_rank b ->
+  wf a = true -> wf b = true -> scalar_eq a b = true -> vhash a = vhash b.
+Proof.
+  intros Sa Sb R Wa Wb E.
+  pose proof (scalar_B_same a b Sa Sb R Wa Wb E) as C.
+  destruct a; try discriminate Sa; destruct b; try discriminate Sb; try discriminate R; rewrite !vhash_eqn; cbn [vhash_body].
+  - reflexivity.
+  - reflexivity.
+  - destruct b, b0; try reflexivity; discriminate E.
+  - rewrite int_cmp_exact in C by auto. apply Z.compare_eq in C. subst. reflexivity.
+  - (* int, float *)
+    cbn [wf] in *. rewrite num_cmp_key in C by auto. apply Z.compare_eq in C. cbn [nkey] in C.
+    symmetry. apply float_int_hash; auto.
+    unfold scalar_eq, coerce in E. destruct w; destruct (as_f64 _ false); try discriminate E;
+      unfold f_eq in E; destruct (f_is_nan bits); auto; rewrite andb_false_r in E; discriminate E.
+  - cbn [wf] in *. rewrite num_cmp_key in C by auto. apply Z.compare_eq in C. cbn [nkey] in C.
+    apply float_int_hash; auto.
+    unfold scalar_eq, coerce in E. destruct (as_f64 _ false); try discriminate E;
+      unfold f_eq in E; destruct (f_is_nan bits); auto; discriminate E.
+  - cbn in E. cbn [wf] in *. unfold f_eq in E. apply andb_prop in E. destruct E as [E1 E2].
+    apply orb_prop in E2. destruct E2 as [E2|E2].
+    + apply Z.eqb_eq in E2. subst. reflexivity.
+    + apply andb_prop in E2. destruct E2 as [Z1 Z2]. apply Z.eqb_eq in Z1, Z2.
+      destruct (zero_pattern _ Wa Z1) as [-> | ->]; destruct (zero_pattern _ Wb Z2) as [-> | ->]; vm_compute; reflexivity.
+  - cbn in E. apply zlist_eqb_eq in E. subst. reflexivity.
+  - cbn in E. apply zlist_eqb_eq in E. subst. reflexivity.
+Qed.
+
+Lemma all2_hpairs xs : forall ys i,
+  Forall (fun x => wf x = true -> forall y, wf y = true -> veq x y = true -> cross_kind x y = false -> vhash x = vhash y) xs ->
+  Forall (fun x => wf x = true) xs -> Forall (fun y => wf y = true) ys ->
+  all2 veq xs ys = true -> any2 cross_kind xs ys = false -> hpairs i xs = hpairs i ys.
+Proof.
+  induction xs as [|x xs IH]; intros [|y ys] i H W1 W2 E G; cbn [hpairs all2 any2] in *; try discriminate; auto.
+  apply Forall_cons_iff in H. destruct H as [Hx H].
+  apply Forall_cons_iff in W1. destruct W1 as [Wx W1]. apply Forall_cons_iff in W2. destruct W2 as [Wy W2].
+  apply andb_prop in E. destruct E as [E1 E2]. apply orb_false_elim in G. destruct G as [G1 G2].
+  rewrite (Hx Wx y Wy E1 G1). f_equal. f_equal. apply IH; auto.
+Qed.
+
+Lemma positional_hflat kvs kvs2 :
+  Forall2 (fun kv kv2 => vcmp (fst kv) (fst kv2) = Eq /\ veq (snd kv) (snd kv2) = true) kvs kvs2 ->
+  Forall (fun x => WN x -> forall y, wf y = true -> veq x y = true -> cross_kind x y = false -> vhash x = vhash y) (flat_pairs kvs) ->
+  Forall WN (flat_pairs kvs) -> Forall (fun x => wf x = true) (flat_pairs kvs2) ->
+  any2 cross_kind (flat_pairs kvs) (flat_pairs kvs2) = false ->
+  hflat (flat_pairs kvs) = hflat (flat_pairs kvs2).
+Proof.
+  induction 1 as [|[k v] [k2 v2] r r2 [Hk Hv] _ IH]; intros H W1 W2 G; [reflexivity|].
+  cbn [flat_pairs fst snd] in *.
+  apply Forall_cons_iff in H. destruct H as [H1 H]. apply Forall_cons_iff in H. destruct H as [H2 H].
+  apply Forall_cons_iff in W1. destruct W1 as [Wk W1]. apply Forall_cons_iff in W1. destruct W1 as [Wv W1].
+  apply Forall_cons_iff in W2. destruct W2 as [Wk2 W2]. apply Forall_cons_iff in W2. destruct W2 as [Wv2 W2].
+  cbn [any2] in G. apply orb_false_elim in G. destruct G as [G1 G]. apply orb_false_elim in G. destruct G as [G2 G].
+  cbn [hflat].
+  rewrite (H1 Wk k2 Wk2 (cmp_eq_veq k k2 (proj1 Wk) Wk2 (proj2 Wk) Hk) G1).
+  rewrite (H2 Wv v2 Wv2 Hv G2). f_equal. f_equal. apply IH; auto.
+Qed.
+
+Theorem veq_hash_eq a : forall vb, wf a = true -> wf vb = true -> nan_free a = true ->
+  veq a vb = true -> cross_kind a vb = false -> vhash a = vhash vb.
+Proof.
+  induction a using value_ind'; intros vb Wa Wb NF E G; rewrite veq_eqn in E; rewrite cross_kind_eqn in G.
+  1-7: (cbn [veq_body] in E;
+        match type of E with scalar_eq ?x _ = true =>
+          pose proof (scalar_eq_scalar x vb eq_refl E) as Sb; destruct (scalar_B_rank x vb eq_refl E) as [R|X] end;
+        [ apply scalar_C; auto
+        | unfold cross_body in G; rewrite X in G; discriminate G ]).
+  1-3: (cbn [veq_body] in E; apply andb_prop in E; destruct E as [E E3]; apply andb_prop in E; destruct E as [E1 E2];
+        destruct vb; try discriminate E1; try discriminate E2; cbn [cross_body is_bool is_number andb orb] in G; try discriminate G;
+        rewrite !vhash_eqn; cbn [vhash_body]; f_equal; cbn [items_of] in *;
+        apply all2_hpairs; auto;
+        [ eapply Forall_mp; [|apply (nan_free_items _ NF)]; eapply Forall_impl; [|exact H]; cbn; intros x Hx N1 W1 y Wy; apply Hx; auto
+        | apply (wf_items _ Wa) | apply (wf_items _ Wb) ]).
+  - destruct vb; try discriminate E. cbn [cross_body is_bool is_number andb orb] in G.
+    rewrite !vhash_eqn; cbn [vhash_body]; f_equal.
+    apply positional_hflat; auto.
+    + apply map_veq_positional; auto.
+    + apply flat_pairs_Forall. eapply Forall_impl; [|exact H]. cbn. intros [k v] [H1 H2]. cbn [fst snd] in *.
+      split; intros [W1 W2] y Wy; [apply H1|apply H2]; auto.
+    + apply (Forall_and (wf_items _ Wa) (nan_free_items _ NF)).
+    + apply (wf_items _ Wb).
+  - destruct vb; try discriminate E. rewrite !vhash_eqn. reflexivity.
+Qed.
+
+(* == is symmetric (outside the known classes, NaN aside) *)
+Theorem veq_sym_proof a b : wf a = true -> wf b = true -> nan_free b = true ->
+  cross_kind a b = false -> veq a b = true -> veq b a = true.
+Proof.
+  intros Wa Wb NF G E. apply cmp_eq_veq; auto.
+  rewrite (vcmp_anti a b Wa Wb), (veq_cmp_eq a b Wa Wb E G). reflexivity.
+Qed.
